@@ -36,7 +36,7 @@ const (
 	opVerifyLast     = 12 // the most recent signature through every verification entry point
 	opVerifyMutated  = 13 // the most recent signature with one byte changed: library verdict == reference verdict
 	opCount          = 14
-	histMaxScalarLen = 40
+	histMaxScalarLen = 160
 )
 
 func opName(op int) string {
@@ -88,12 +88,20 @@ func checkHistory(c histCase, rec *h.Rec) error {
 		default:
 			rec.Label("key-invalid:d>=2^256")
 		}
+		if d.Cmp(two256) >= 0 && new(big.Int).Mod(d, two256).Cmp(sub(bigN, one)) < 0 && new(big.Int).Mod(d, two256).Sign() > 0 {
+			rec.Label("key-invalid:valid-low-32-bytes")
+		}
 		if err != nil || priv == nil {
 			rec.Label("ctor-refused")
 			if priv != nil && err != nil {
 				return fmt.Errorf("%s returned both a key and the error %v for d=%x", ctorNames[c.Ctor], err, []byte(c.D))
 			}
 			return nil // no key object, no history
+		}
+		if c.Ctor < 2 {
+			// NewPrivateKey: "the length must be 32 ... the private key must be in [1, n-2]";
+			// NewPrivateKeyFromInt goes through it
+			return fmt.Errorf("%s accepted the scalar %x, which is outside [1, n-2]", ctorNames[c.Ctor], []byte(c.D))
 		}
 	}
 
@@ -251,6 +259,21 @@ func invalidScalars() [][]byte {
 	}
 }
 
+// wideInvalidScalars: scalars far above n whose low 32 bytes are a valid
+// scalar on their own (see wideValues).
+func wideInvalidScalars(seed uint64) [][]byte {
+	var out [][]byte
+	for i, v := range []*big.Int{bi(5), scalarFromSeed(gen.Mix(seed, 0x77)), sub(bigN, bi(2))} {
+		for k, w := range wideValues(v, 32, seed+uint64(i)) {
+			if i > 0 && k%3 != i%3 {
+				continue // the full list for the small scalar, a third of it for the others
+			}
+			out = append(out, w.v.Bytes())
+		}
+	}
+	return out
+}
+
 // TestC06_HistoryInvalidKey: every invalid scalar x every constructor x every
 // sequence of three signing entry points (10^3), enumerated completely.
 func TestC06_HistoryInvalidKey(t *testing.T) {
@@ -281,6 +304,21 @@ func TestC06_HistoryInvalidKey(t *testing.T) {
 				}
 			}
 		}
+		// the width dimension: each wide scalar x every constructor x each signing
+		// entry point first (followed by two others) and three times in a row
+		for wi, d := range wideInvalidScalars(h.Seed) {
+			for ctor := 0; ctor < 4; ctor++ {
+				for a := opSignFirst; a <= opSignLast; a++ {
+					if ctor < 2 && a > 0 {
+						break // the checking constructors refuse: one case each
+					}
+					seed := gen.Mix(h.Seed, uint64(wi), uint64(ctor), uint64(a), 0x77)
+					b, c := (a+1+wi)%(opSignLast+1), (a*3+2)%(opSignLast+1)
+					emit(histCase{D: d, Ctor: ctor, Ops: []hop{{Op: a, MsgLen: 3, Seed: seed}, {Op: b, UIDLen: 16, Seed: seed + 1, Args: gen.Mix(seed, 1) | argFlavoured}, {Op: c, UIDLen: 1, MsgLen: 70, Seed: seed + 2}}})
+					emit(histCase{D: d, Ctor: ctor, Ops: []hop{{Op: a, MsgLen: 3, Seed: seed}, {Op: a, UIDLen: 16, Seed: seed + 1}, {Op: a, UIDLen: 1, MsgLen: 70, Seed: seed + 2}}})
+				}
+			}
+		}
 	}, checkHistory)
 }
 
@@ -290,8 +328,13 @@ func TestC06_History(t *testing.T) {
 	h.Prop(t, h.P{Name: "history", Quick: 500, Thorough: 6000}, func(rt *rapid.T) histCase {
 		c := histCase{}
 		if rapid.IntRange(0, 3).Draw(rt, "invalid") == 0 {
-			if rapid.Bool().Draw(rt, "listed") {
+			if k := rapid.IntRange(0, 2).Draw(rt, "invKind"); k == 0 {
 				c.D = cp(inv[rapid.IntRange(0, len(inv)-1).Draw(rt, "which")])
+			} else if k == 1 {
+				// a valid scalar in the low 32 bytes, something further up
+				seed := rapid.Uint64().Draw(rt, "wideSeed")
+				w := wideValues(keyOfKind(int(seed%8), seed), 32, seed)
+				c.D = w[rapid.IntRange(0, len(w)-1).Draw(rt, "wide")].v.Bytes()
 			} else {
 				// n-1 + a random non-negative offset, up to 40 bytes wide
 				off := new(big.Int).SetBytes(gen.Fill(rapid.Uint64().Draw(rt, "offSeed"), rapid.IntRange(0, 39).Draw(rt, "offLen")))
